@@ -61,7 +61,7 @@ CHECKS = {
  "C13": dict(
     level="exploration", design="2/C13",
     technique="runtime monitor: component oracle with taint markers over an exhaustive URI component grid plus seeded random URIs",
-    text="Targets are assembled from known components (82944-point grid over scheme x host form x port x user-info x path x query, plus random), user-info and query carry markers; the canonical printer-uri from the helper and from all 9 URI-taking constructors is split by an independent splitter and compared component-wise, the markers must not occur anywhere in the request bytes, and canonicalisation must be idempotent.",
+    text="Targets are assembled from known components (110592-point grid over scheme x host form x port x user-info x path x query, plus random), user-info and query carry markers; the canonical printer-uri from the helper and from all 9 URI-taking constructors is split by an independent splitter and compared component-wise, the markers must not occur anywhere in the request bytes, and canonicalisation must be idempotent.",
     note="Targets http::Uri refuses are counted and skipped."),
  "C14": dict(
     level="exploration", design="2/C14",
